@@ -164,7 +164,20 @@ pub fn run_real<T: Elem>(max: usize, ops: &[Op]) -> String {
             outs.push(o);
         }
     }
-    format!("{} | vals:{} max:{}", outs.join(" "), list(&contents(&s)), s.max_stack_size())
+    // the comparisons of a stack with vectors, slices and arrays (how states are usually observed) say what the
+    // pop-out of the contents says: equal to its own contents bottom first, unequal to anything else
+    let items: Vec<T> = { let mut c = s.clone(); let mut v = Vec::new(); while let Ok(x) = c.pop() { v.push(x); } v.reverse(); v };
+    let mut other = items.clone();
+    if let Some(x) = other.first_mut() { *x = T::of(x.back() + 1_000_000); } else { other.push(T::of(1)); }
+    let mut copy = items.clone();
+    let mut eq_ok = s == items && s == items[..] && s == &items[..] && s == &mut copy[..] && !(s == other) && !(s == &other[..]);
+    match items.len() {
+        0 => { let a: [T; 0] = []; eq_ok &= s == a && s == &a; }
+        1 => { let a: [T; 1] = [items[0].clone()]; eq_ok &= s == a && s == &a; }
+        2 => { let a: [T; 2] = [items[0].clone(), items[1].clone()]; eq_ok &= s == a && s == &a; let b: [T; 2] = [items[1].clone(), T::of(items[0].back() + 7)]; eq_ok &= !(s == b); }
+        _ => { let a: [T; 1] = [items[0].clone()]; eq_ok &= !(s == a); }
+    }
+    format!("{} | vals:{} max:{}{}", outs.join(" "), list(&contents(&s)), s.max_stack_size(), if eq_ok { "" } else { " !EQ-IMPLS" })
 }
 
 /// drop what the property does not fix (how many items a failing `try_extend` consumed)
@@ -239,6 +252,10 @@ fn check_case(d: &mut crate::driver::Driver, r: &mut Report, max: usize, ops: &[
     for op in ops { r.hit(&format!("op {}", op.token().split(':').next().unwrap())); }
     r.sample(json!({"request": req, "real": real_i}));
     for (ty, real) in [("i64", &real_i), ("String", &real_s)] {
+        if real.contains(" !EQ-IMPLS") {
+            r.disagree(json!({"case": req, "elem": ty, "real": real, "impl": "a stack equals (==) exactly the vector / slice / array of its contents, bottom first"}));
+        }
+        let real = &real.replace(" !EQ-IMPLS", "");
         if real.contains("!STATE-CHANGED") {
             r.violate(json!({"case": req, "elem": ty, "real": real, "what": "an operation reported an error but changed the stack"}));
         }
